@@ -192,6 +192,11 @@ struct Driver {
     if (prof.pm_tty > 0 && H(4) == 0) { static const int kCol[] = {1, 2, 4, 1 | 2, 1 | 4, 8, 16, 32, 2 | 4, 8 | 2, 16 | 4, 1 | 32}; p.color_env = kCol[H(12)]; }
     p.cols = 20 + (int)H(100);
     p.status_mode = (int)H(3);
+    // one build in five of the profiles with terminals uses a status format without the counter of finished
+    // commands - consecutive status lines can then be identical (--status without $description) or differ
+    // only in the description
+    if (prof.pm_tty > 0 && !prof.damage && p.status_mode != 0 && Hash64(&p.cols, sizeof p.cols, (uint64_t)p.stream * 7 + 1) % 5 == 0)
+      p.status_fmt = p.status_mode == 1 ? "[%s/%t] " : "[$started/$total]";
     if (Pm(prof.pm_load)) p.l = 1.0 + H(4);
     if (Pm(prof.pm_jobserver)) {
       p.jobserver = true; p.j = -1; p.js_tokens = (int)H(4); p.js_peers = (int)H(3); p.nproc = 1 + (int)H(4);
